@@ -1421,6 +1421,22 @@ func c10TableCopy(c *Ctx, r *Report, rule string) {
 		}
 	}
 	if loop == nil {
+		// maps.Copy(Additional, funcs) as an unconditional top-level statement is the same copy
+		var param types.Object
+		if fi.Decl.Type.Params != nil && len(fi.Decl.Type.Params.List) == 1 && len(fi.Decl.Type.Params.List[0].Names) == 1 {
+			param = info.Defs[fi.Decl.Type.Params.List[0].Names[0]]
+		}
+		for _, st := range fi.Decl.Body.List {
+			if es, ok := st.(*ast.ExprStmt); ok {
+				if ce, ok := es.X.(*ast.CallExpr); ok && calleeName(info, ce) == "maps.Copy" && len(ce.Args) == 2 {
+					dst, isVar := identObj(info, ce.Args[0]).(*types.Var)
+					if isVar && dst.Name() == "Additional" && param != nil && identObj(info, ce.Args[1]) == param {
+						r.OK(rule, fi.Name, "Additional[name] = fnc on every path", c.Pos(ce.Pos()), "library: maps.Copy stores every definition under its name, unconditionally")
+						return
+					}
+				}
+			}
+		}
 		r.Undecided(rule, fi.Name, "loop", c.Pos(fi.Decl.Pos()), "loop over the functions to add not found")
 		return
 	}
